@@ -947,6 +947,13 @@ class FuncIntervals:
         """Constant byte width of view[a:b] (b - a folded with intervals), else None."""
         if isinstance(e, ast.Call) and isinstance(e.func, ast.Attribute) and e.func.attr == "tobytes":
             e = e.func.value
+        if isinstance(e, ast.Subscript) and isinstance(e.slice, ast.Slice) and e.slice.step is None and e.slice.lower is not None and e.slice.upper is not None:
+            # view[x + a : x + b]: the width is b - a whatever x is (linear forms over opaque atoms)
+            from .linfacts import lin_of
+
+            (ta, ca), (tb, cb) = lin_of(e.slice.lower), lin_of(e.slice.upper)
+            if ta == tb and ta and cb - ca >= 0:
+                return cb - ca
         if isinstance(e, ast.Subscript) and isinstance(e.slice, ast.Slice) and e.slice.step is None:
             lo = self.eval(e.slice.lower, env) if e.slice.lower is not None else IV.const(0)
             if e.slice.upper is None:
